@@ -60,6 +60,7 @@ type C02Step struct {
 	Specs []SpecJ `json:"specs,omitempty"`
 	Perm  []int   `json:"perm,omitempty"`
 	Via   string  `json:"via,omitempty"` // "RS" | "S" | "pkg" (tensor.Narrow) | "method"
+	Into  string  `json:"into,omitempty"` // "" (Slice) | "fresh" | "view" | "self": destination of SliceInto
 	Dim   int     `json:"dim,omitempty"`
 	Start int     `json:"start,omitempty"`
 	Len   int     `json:"len,omitempty"`
@@ -71,6 +72,9 @@ type C02Case struct {
 	L     Layout    `json:"layout"`
 	Prog  []C02Step `json:"prog"`
 	Base  int64     `json:"base"`
+	// Release: afterwards the views are handed back to the pool one by one (last first) and the
+	// tensors they were derived from are checked again
+	Release bool `json:"release,omitempty"`
 }
 
 func init() { register("C02.slice", func() Case { return &C02Case{} }) }
@@ -147,9 +151,14 @@ func (c *C02Case) Run() string {
 	t := b.T
 	m := arr.Clone()
 	midx := append([]int{}, b.Idx...) // root logical index of each element of the current view
+	type link struct {
+		t *tensor.Dense
+		m Arr
+	}
+	chain := []link{{t, m}} // every tensor of the history that is still what it was
 	for si, st := range c.Prog {
-		if len(m.Shape) == 0 {
-			return "" // the previous step produced a scalar: slicing scalars is outside the quantifier (rank 1-4)
+		if len(m.Shape) == 0 && !(st.Op == "slice" && len(st.Specs) == 0) {
+			break // the previous step produced a scalar: only the empty slice list applies to it
 		}
 		switch st.Op {
 		case "T":
@@ -171,6 +180,7 @@ func (c *C02Case) Run() string {
 			if msg := compareAt(t, m, bitEqVal); msg != "" {
 				return inconclusive // the transpose itself is C03's business
 			}
+			chain[len(chain)-1].m = m
 			continue
 		}
 		specs := st.Specs
@@ -226,7 +236,21 @@ func (c *C02Case) Run() string {
 				for i, s := range specs {
 					sl[i] = s.lib(st.Via)
 				}
-				v, lerr = t.Slice(sl...)
+				switch st.Into {
+				case "":
+					v, lerr = t.Slice(sl...)
+				case "fresh": // an unrelated tensor object is turned into the view (all its metadata is overridden)
+					v, lerr = t.SliceInto(tensor.New(tensor.WithShape(5), tensor.Of(tensor.Byte)), sl...)
+				case "view": // a view object of the same source is recycled
+					pv, perr := t.Slice()
+					if perr != nil {
+						lerr = perr
+						return
+					}
+					v, lerr = t.SliceInto(pv.(*tensor.Dense), sl...)
+				case "self": // the tensor is narrowed in place
+					v, lerr = t.SliceInto(t, sl...)
+				}
 			}
 		})
 		desc := fmt.Sprintf("step %d: %v%v on shape %v (source %v)", si, st.Op, specs, m.Shape, c.L)
@@ -344,7 +368,45 @@ func (c *C02Case) Run() string {
 				return desc + ": after restoring: " + diff
 			}
 		}
+		if vd == t {
+			chain = chain[:len(chain)-1] // narrowed in place: the wider tensor is gone
+		}
+		chain = append(chain, link{vd, want})
 		t, m, midx = vd, want, widx
+	}
+	// the history: every tensor of the chain still is what it was, and stays so when the views derived
+	// from it are handed back to the pool (their shape and stride records are theirs alone)
+	verify := func(when string) string {
+		for i, l := range chain {
+			if len(l.m.Shape) > 0 && !eqInts([]int(l.t.Shape()), l.m.Shape) {
+				return fmt.Sprintf("%s: tensor %d of the slicing history has shape %v, expected %v", when, i, l.t.Shape(), l.m.Shape)
+			}
+			if msg := compareAt(l.t, l.m, bitEqVal); msg != "" {
+				return fmt.Sprintf("%s: tensor %d of the slicing history (shape %v): %s", when, i, l.m.Shape, msg)
+			}
+		}
+		return ""
+	}
+	if msg := verify("after the program"); msg != "" {
+		return msg
+	}
+	if c.Release {
+		rec.Class("history:released")
+		for len(chain) > 1 {
+			last := chain[len(chain)-1]
+			chain = chain[:len(chain)-1]
+			if pan := try(func() { tensor.ReturnTensor(last.t) }); pan != "" {
+				return "ReturnTensor(view) panicked: " + pan
+			}
+			// whatever the pool got back is handed out again and overwritten
+			for _, sh := range [][]int{{7, 6}, {6, 7, 8}, {9, 8, 7, 6}, {11}, {12, 13}} {
+				x := tensor.New(tensor.Of(tensor.Int), tensor.WithShape(sh...))
+				_ = x.T()
+			}
+			if msg := verify(fmt.Sprintf("after returning view %d to the pool", len(chain))); msg != "" {
+				return msg
+			}
+		}
 	}
 	return ""
 }
@@ -521,8 +583,15 @@ func genC02Prog(rt *rapid.T, shape []int, depth int, sweepAxis int) []C02Step {
 			specs[i] = genSpec(rt, dim, fmt.Sprintf("sp%d", i))
 		}
 		specs = avoidEmptyAndF2(cur, specs)
-		prog = append(prog, C02Step{Op: "slice", Specs: specs, Via: rapid.SampledFrom([]string{"RS", "S"}).Draw(rt, "via")})
+		into := ""
+		if k := rapid.IntRange(0, 9).Draw(rt, "into"); k < 3 {
+			into = []string{"fresh", "view", "self"}[k]
+		}
+		prog = append(prog, C02Step{Op: "slice", Specs: specs, Via: rapid.SampledFrom([]string{"RS", "S"}).Draw(rt, "via"), Into: into})
 		cur = modelShapeAfter(cur, specs)
+	}
+	if cur != nil && len(cur) == 0 && rapid.Bool().Draw(rt, "scalarslice") {
+		prog = append(prog, C02Step{Op: "slice", Via: "S"}) // the empty slice list on a scalar
 	}
 	return prog
 }
@@ -537,7 +606,7 @@ func TestC02(t *testing.T) {
 					shape[0] = 1
 				}
 				depth := rapid.IntRange(1, 3).Draw(rt, "depth")
-				return &C02Case{DT: d.Name, Shape: shape, L: genLayoutKind(rt, lk, len(shape), "l"), Prog: genC02Prog(rt, shape, depth, -1), Base: rapid.Int64Range(0, 20).Draw(rt, "base")}
+				return &C02Case{DT: d.Name, Shape: shape, L: genLayoutKind(rt, lk, len(shape), "l"), Prog: genC02Prog(rt, shape, depth, -1), Base: rapid.Int64Range(0, 20).Draw(rt, "base"), Release: rapid.IntRange(0, 2).Draw(rt, "release") == 0}
 			})
 		}
 	}
